@@ -217,7 +217,7 @@ fn proof_agreement<const D: usize, const COUNT: u8>() {
 }
 
 #[kani::proof]
-#[kani::unwind(70)]
+#[kani::unwind(42)]
 #[kani::stub(crate::rc4::Rc4::new, crate::rc4::verif_h::stub_new_pad)]
 #[kani::stub(crate::rc4::Rc4::apply_keystream, crate::rc4::verif_h::pad_apply)]
 #[kani::stub(crate::matrix_card::generate_coordinates, stub_coordinates)]
@@ -227,7 +227,7 @@ fn c18_proof_agreement() {
 }
 
 #[kani::proof]
-#[kani::unwind(70)]
+#[kani::unwind(42)]
 #[kani::stub(crate::rc4::Rc4::new, crate::rc4::verif_h::stub_new_pad)]
 #[kani::stub(crate::rc4::Rc4::apply_keystream, crate::rc4::verif_h::pad_apply)]
 #[kani::stub(crate::matrix_card::generate_coordinates, stub_coordinates)]
